@@ -224,7 +224,7 @@ func New(r *rand.Rand) *G {
 	}
 	g.Opaque = out
 	// order of the type descriptors as CmpTotal sees it, by model tag
-	reps := []any{nil, true, 1, "s", vals.EmptyList, vals.MakeList("a", "b").SubVector(0, 1), vals.EmptyMap, out[0], out[3], out[6]}
+	reps := []any{nil, true, 1, "s", vals.EmptyList, vals.EmptyMap, out[0], out[3], out[6]}
 	ranks := make([]string, len(reps))
 	for i, a := range reps {
 		n := 0
